@@ -73,6 +73,10 @@ def recipe(r, d, maxd):
         return {'t': 'dict', 'v': [[key, recipe(r, d + 1, maxd)] for key in keys]}
     if k < 0.44:
         # (c: plain set or one of two subclasses of it - found by the serializers' subclass search)
+        if r.random() < 0.3:
+            # members that cannot be ordered against each other
+            pool = [1, 2.5, 'a', 'b', None, True, ('t', 1), ('t', 'x')]
+            return {'t': 'set', 'mixed': r.sample(range(len(pool)), r.randint(2, 4)), 'v': [], 'c': 0}
         return {'t': 'set', 'v': sorted({r.randint(0, 5) for _ in range(r.randint(0, 3))}), 'c': r.choice([0, 0, 1, 2])}
     if k < 0.52:
         return {'t': 'i', 'x': r.choice([0, 1, -1, 2 ** 53, -2 ** 53, 2 ** 62, r.randint(-10 ** 6, 10 ** 6)])}
@@ -161,6 +165,9 @@ def build(rc, env):
     if t == 'dict':
         return {k: build(v, env) for k, v in rc['v']}
     if t == 'set':
+        if rc.get('mixed'):
+            pool = [1, 2.5, 'a', 'b', None, True, ('t', 1), ('t', 'x')]
+            return {pool[k] for k in rc['mixed']}
         return [set, _SetA, _SetB][rc.get('c', 0)](rc['v'])
     if t in ('i', 's', 'c', 'f'):
         return rc['x']
@@ -234,6 +241,10 @@ def json_plain(x):
     return False
 
 
+def _skey(v):
+    return (type(v).__name__, repr(v))
+
+
 def expect(x, env):
     """The tree deserialize_value(serialize_value(x)) has to equal."""
     Quantity, Unit, np = env['Quantity'], env['Unit'], env['np']
@@ -250,7 +261,7 @@ def expect(x, env):
     if isinstance(x, (list, tuple)):
         return [expect(i, env) for i in x]
     if isinstance(x, set):
-        return ('SET', sorted(x))
+        return ('SET', sorted((expect(i, env) for i in x), key=_skey))
     if isinstance(x, dict):
         return {k: expect(v, env) for k, v in x.items()}
     if isinstance(x, np.ndarray):
@@ -277,7 +288,7 @@ def same(e, d, env):
     if isinstance(e, tuple) and e and e[0] == 'STR':
         return isinstance(d, str) and d.startswith(e[1])
     if isinstance(e, tuple) and e and e[0] == 'SET':
-        return isinstance(d, list) and sorted(d) == e[1]
+        return isinstance(d, list) and sorted(d, key=_skey) == e[1]
     if isinstance(e, list):
         return isinstance(d, list) and len(e) == len(d) and all(same(x, y, env) for x, y in zip(e, d))
     if isinstance(e, dict):
